@@ -2,6 +2,8 @@ from props_common import B
 
 PROP = {
     "crate": "c17",
+    # a safe constructor / accessor that kills the process (e.g. an aligned load from an unaligned slice) did not deliver the lanes
+    "crash_is_violation": True,
     "rule": "A case is one history: a sequence of 0..32 steps applied to one value of one type in one backend, each step either (a) constructing the value through one of its "
             "constructor paths (new / from_xyzw, splat, from_array, from_slice with a longer slice, From<array>, From<tuple>, the free constructor function, whole-array AsMut "
             "assignment, Vec3A::from_vec4 with a chosen hidden lane, Quat::from_vec4, a named constant, Default), (b) writing one lane through field assignment, IndexMut, "
